@@ -186,6 +186,57 @@ def rule_justification_always_processed(ctx):
         ctx.ob(R, "%s: the processed certificate is the message's justification" % h, okarg, "process_*_qc(ctx, <message>.justification's certificate)" if okarg else "%s processes a certificate that is not the handled message's justification" % h, f.loc())
 
 
+def rule_restore(ctx):
+    R = "C05.12"
+    ctx.rule(R, "what a restarted replica resumes from (StateMachine::start): the stored state as a whole when - and only when - it was written in the epoch the replica runs in (backup.epoch == config.epoch), the default state (view 0, Prepare, no vote, no certificates) otherwise. Views restart from 0 in every epoch: a state of another epoch, even with its epoch field overwritten, makes the replica claim a view it was never justified to be in and report certificates of another committee")
+    f = ctx.body(SM + "::start")
+    T = ctx.T(f)
+    cands = [l for l, ty in enumerate(f.locals) if ty.s.endswith("state::ChonkyV2State") and len(T.defs.get(l, [])) > 1]
+    if len(cands) != 1:
+        ctx.note("C05.12: the restored state is not a single multiply-assigned ChonkyV2State local (%d candidates) - not decided" % len(cands))
+        ctx.ob(R, "restored state", True, "undecided shape (not reported)", f.loc())
+        return
+    loc = cands[0]
+    stored, dflt, other = [], [], []
+    for d in T.defs[loc]:
+        if d[0] == "s":
+            v = T.rvalue(f.blocks[d[1]]["s"][d[2]]["r"])
+            if v[0] == "agg":
+                other.append((d[1], show(v)[:100]))
+            elif any(x[0] == "call" and x[1].endswith("EngineManager::get_state") for x in subterms(v)):
+                stored.append(d[1])
+            else:
+                other.append((d[1], show(v)[:100]))
+        elif d[0] == "c":
+            ct = T.call_term(f.blocks[d[1]]["t"])
+            if ct[0] == "call" and ct[1].endswith("Default::default") and not ct[2]:
+                dflt.append(d[1])
+            else:
+                other.append((d[1], show(ct)[:100]))
+    ctx.ob(R, "restored state is the stored one or the default", not other and bool(stored) and bool(dflt), "the state resumed from is the stored ChonkyV2State (whole) or ChonkyV2State::default()" if not other and stored and dflt else
+           "StateMachine::start resumes from a state that is neither the stored state as a whole nor the default: %s" % ([o[1] for o in other][:2] or "stored / default assignment missing"), f.loc())
+
+    def m(a, b):
+        ea = chain(a)[1][-1:] == ["epoch"]
+        eb = chain(b)[1][-1:] == ["epoch"]
+        sa = any(x[0] == "call" and x[1].endswith("EngineManager::get_state") for x in subterms(a))
+        sb = any(x[0] == "call" and x[1].endswith("EngineManager::get_state") for x in subterms(b))
+        if ea and eb and sa and not sb:
+            return 1
+        if ea and eb and sb and not sa:
+            return -1
+        return 0
+    if stored and common.atom_is_tested(ctx, f, m):
+        W = Walker(ctx, f, [Atom("stored.epoch vs config.epoch", "cmp", m, ["=", "!="])])
+        names, tab = W.table({"stored": stored, "default": dflt})
+        ok = "stored" in tab.get(("=",), set()) and "stored" not in tab.get(("!=",), {"stored"}) and "default" in tab.get(("!=",), set())
+        ctx.ob(R, "stored state used only for its own epoch", ok, "the stored state is resumed only when backup.epoch == config.epoch; otherwise the default" if ok else
+               "the stored state is resumed although it was written in another epoch: %s" % {k: sorted(v) for k, v in tab.items()}, f.loc())
+    elif stored:
+        ctx.note("C05.12: no comparison of the stored epoch with the configured one found - not decided")
+        ctx.ob(R, "stored state used only for its own epoch", True, "undecided shape (not reported)", f.loc())
+
+
 def rule_new_view_membership(ctx):
     R = "C05.9"
     ctx.rule(R, "a new-view message is acted on only when its signer is a committee member (spec/informal-spec/replica.rs on_new_view): certificate adoption and the view change are unreachable when validators.contains(author) is false")
@@ -391,5 +442,5 @@ def rule_justification_choice(ctx):
                "with commit=%s timeout=%s order %s get_justification reaches %s; specified %s (spec/informal-spec/replica.rs create_justification)" % (c, t, o, sorted(reach), sorted(exp)), g.loc())
 
 
-RULES = [("C05.1", rule_who_writes), ("C05.4", rule_justification_choice), ("C05.2", rule_strictly_newer), ("C05.3", rule_embedded_commit_qc), ("C05.10", rule_justification_always_processed), ("C05.9", rule_new_view_membership), ("C05.5", rule_stale_new_view), ("C05.6", rule_stale_votes),
+RULES = [("C05.1", rule_who_writes), ("C05.4", rule_justification_choice), ("C05.2", rule_strictly_newer), ("C05.3", rule_embedded_commit_qc), ("C05.10", rule_justification_always_processed), ("C05.12", rule_restore), ("C05.9", rule_new_view_membership), ("C05.5", rule_stale_new_view), ("C05.6", rule_stale_votes),
          ("C05.7", rule_self_justifying), ("C05.11", rule_timeout_content), ("C05.8", rule_wrong_leader)]
